@@ -95,39 +95,39 @@ Fixpoint dict_lookup (ks vs : list value) (k : value) : option value :=
 
 Definition arith (o : bop) (a b : value) : option value :=
   match o with
-  | Add =>
+  | BAdd =>
       match a, b with
       | VStr x, VStr y => Some (VStr (x ++ y)%string)
       | VTuple x, VTuple y => Some (VTuple (x ++ y))
       | VList x, VList y => Some (VList (x ++ y))
       | _, _ => obind (as_int a) (fun x => obind (as_int b) (fun y => Some (VInt (x + y))))
       end
-  | Sub => obind (as_int a) (fun x => obind (as_int b) (fun y => Some (VInt (x - y))))
-  | Mult => obind (as_int a) (fun x => obind (as_int b) (fun y => Some (VInt (x * y))))
-  | FloorDiv => obind (as_int a) (fun x => obind (as_int b) (fun y =>
+  | BSub => obind (as_int a) (fun x => obind (as_int b) (fun y => Some (VInt (x - y))))
+  | BMult => obind (as_int a) (fun x => obind (as_int b) (fun y => Some (VInt (x * y))))
+  | BFloorDiv => obind (as_int a) (fun x => obind (as_int b) (fun y =>
                   if Z.eqb y 0 then None else Some (VInt (x / y))))
-  | Mod => obind (as_int a) (fun x => obind (as_int b) (fun y =>
+  | BMod => obind (as_int a) (fun x => obind (as_int b) (fun y =>
                   if Z.eqb y 0 then None else Some (VInt (x mod y))))
   | _ => None
   end.
 
 Definition compare1 (o : cmpop) (a b : value) : option bool :=
   match o with
-  | Eq => Some (veq a b)
-  | NotEq => Some (negb (veq a b))
-  | Lt => obind (as_int a) (fun x => obind (as_int b) (fun y => Some (x <? y)%Z))
-  | LtE => obind (as_int a) (fun x => obind (as_int b) (fun y => Some (x <=? y)%Z))
-  | Gt => obind (as_int a) (fun x => obind (as_int b) (fun y => Some (x >? y)%Z))
-  | GtE => obind (as_int a) (fun x => obind (as_int b) (fun y => Some (x >=? y)%Z))
-  | In => match b with
+  | CEq => Some (veq a b)
+  | CNotEq => Some (negb (veq a b))
+  | CLt => obind (as_int a) (fun x => obind (as_int b) (fun y => Some (x <? y)%Z))
+  | CLtE => obind (as_int a) (fun x => obind (as_int b) (fun y => Some (x <=? y)%Z))
+  | CGt => obind (as_int a) (fun x => obind (as_int b) (fun y => Some (x >? y)%Z))
+  | CGtE => obind (as_int a) (fun x => obind (as_int b) (fun y => Some (x >=? y)%Z))
+  | CIn => match b with
           | VList l | VTuple l => Some (existsb (fun y => veq y a) l)
           | _ => None
           end
-  | NotIn => match b with
+  | CNotIn => match b with
              | VList l | VTuple l => Some (negb (existsb (fun y => veq y a) l))
              | _ => None
              end
-  | Is | IsNot => None
+  | CIs | CIsNot => None
   end.
 
 Definition unary (o : uop) (a : value) : option value :=
